@@ -14,6 +14,7 @@ Correspondence streams
 import ast
 import itertools
 import math
+import re
 import os
 import struct
 from fractions import Fraction
@@ -175,11 +176,24 @@ def gen_int(rng):
     return rng.choice([-1, 1]) * rng.randrange(10 ** 299, 10 ** 300)
 
 
+LONG_FLOATS = [0.1 + 0.2, 1 / 3.0, 2 / 3.0, math.pi, math.e - 1, 1.7182818284590453, 123456.78901234567, 0.30000000000000004,
+               1.0000000000000002, 0.9999999999999999, 5.551115123125783e-17, 6.02214076e+23 / 7, 1.718000000000001, 1.7179999999999997]
+
+
+def sig_digits(x):
+    """significant decimal digits of repr(x)"""
+    m = G.FTOK_RE.match(repr(x))
+    return len((m.group(2) + (m.group(3) or '')).strip('0')) if m else 0
+
+
 def gen_float(rng, nonfinite=True):
     r = rng.random()
-    if r < 0.3:
+    if r < 0.15:
         return round(rng.uniform(-10, 10), rng.randint(0, 6))
-    if r < 0.55:
+    if r < 0.4:
+        # 15-17 significant digits: every formatting shortcut ('{:g}', '%f', round) loses these
+        return rng.choice(LONG_FLOATS) if rng.random() < 0.4 else rng.uniform(-10, 10) * rng.choice([1, 1, 1e-3, 1e3, 1e9])
+    if r < 0.6:
         return struct.unpack('<d', struct.pack('<Q', rng.getrandbits(64)))[0] if nonfinite else rng.uniform(-1e6, 1e6)
     if r < 0.8:
         return rng.choice([0.0, -0.0, 1.0, -1.0, 0.5, 1.718, 1e16, 1e22, 1e-5, 1e-7, 123456789012345678.0, 5e-324, -5e-324,
@@ -255,7 +269,8 @@ def run(ctx):
     found_input = False
     dist = {'update_form': {}, 'configs': 0, 'tricky_configs': 0, 'upper_key_configs': 0, 'values_by_type': {}, 'stage_cases': {},
             'literal_strings': 0, 'literal_unmodelled': 0, 'ini_texts': 0, 'e2e_runs': 0, 'getter_queries': 0,
-            'known_class_hits': {}, 'prop_checks': 0, 'fallback_checks': 0}
+            'known_class_hits': {}, 'prop_checks': 0, 'fallback_checks': 0, 'requeued_without_percent_option': 0,
+            'floats_with_15_to_17_significant_digits': 0}
     path, dtext, dparsed = G.defaults_file()
     dmap = dict((s, dict(kv)) for s, kv in dparsed)
 
@@ -315,12 +330,22 @@ def run(ctx):
             plan.append(('upper', None))
         else:
             plan.append(('plain', None))
-    for ci, (mode, tricky) in enumerate(plan):
-        if tricky is not None and not G.modelled(tricky):
+    # worklist: a configuration that cannot be written / read because of a '%' value whose failure is exactly the known
+    # one is re-queued without that option, so that all its other options are still compared
+    work = [(ci, '', mode, tricky, None) for ci, (mode, tricky) in enumerate(plan)]
+    wi = 0
+    while wi < len(work):
+        ci, sfx, mode, tricky, given = work[wi]
+        wi += 1
+        if given is None and tricky is not None and not G.modelled(tricky):
             # outside the modelled alphabet: the property is checked on the implementation alone
+            nv0 = len(ctx.violations)
             _direct_nonascii(ctx, P, tricky, known)
+            found_input = found_input or len(ctx.violations) > nv0
             continue
-        conf = gen_config(rng, tricky=tricky, upper=(mode == 'upper'))
+        conf = given if given is not None else gen_config(rng, tricky=tricky, upper=(mode == 'upper'))
+        if given is not None:
+            dist['requeued_without_percent_option'] += 1
         dist['configs'] += 1
         dist['tricky_configs'] += tricky is not None
         dist['upper_key_configs'] += mode == 'upper'
@@ -328,15 +353,17 @@ def run(ctx):
             for _, v in kv:
                 t = type(v).__name__
                 dist['values_by_type'][t] = dist['values_by_type'].get(t, 0) + 1
+                if type(v) is float and math.isfinite(v) and sig_digits(v) >= 15:
+                    dist['floats_with_15_to_17_significant_digits'] += 1
                 if v is None or type(v) in (bool, int, float):
                     lit_strings.add(str(v))
                 elif G.modelled(v) and '\n' not in v:
                     lit_strings.add(v.strip())
         fill = rng.random() < 0.5
-        tag = 'cfg%d' % ci
+        tag = 'cfg%d%s' % (ci, sfx)
         conf_json = [[s, [[k, repr(v)] for k, v in kv]] for s, kv in conf]
         conf_lit = core.listlit(['(%s, %s)' % (S(s), dict_lit(kv, value_lit)) for s, kv in conf])
-        fn = os.path.join(ctx.workdir, 'p%d.cfg' % ci)
+        fn = os.path.join(ctx.workdir, 'p%d%s.cfg' % (ci, sfx))
 
         # stage 1-2: update_params (single-section calls, or one call in the sections-dict form) and write_params
         form = 'sections_dict' if ci % 2 else 'single_section'
@@ -370,8 +397,10 @@ def run(ctx):
         ctx.count((tag, 'write', str(conf_json)), any(kv for _, kv in conf))
         if r_text[0] != 'ok':
             nv0 = len(ctx.violations)
-            _prop_failed_set(ctx, conf, r_text, known, conf_json)
+            reduced = _explain_failure(ctx, P, conf, 'set', r_text, known, conf_json, None)
             found_input = found_input or len(ctx.violations) > nv0
+            if reduced is not None:
+                work.append((ci, sfx + 'r', mode, None, reduced))
             continue
         text = r_text[1]
         text_lit = S(text)
@@ -479,8 +508,17 @@ def run(ctx):
 
         # prop (a): every supported value reads back as the same typed value
         nv0 = len(ctx.violations)
-        _prop_roundtrip(ctx, conf, r_sd, known, conf_json, text, dist)
+        if r_sd[0] != 'ok':
+            reduced = _explain_failure(ctx, P, conf, 'read', r_sd, known, conf_json, text)
+            if reduced is not None:
+                work.append((ci, sfx + 'r', mode, None, reduced))
+        else:
+            _prop_roundtrip(ctx, conf, r_sd, known, conf_json, text, dist)
         found_input = found_input or len(ctx.violations) > nv0
+
+    if dist['floats_with_15_to_17_significant_digits'] < ncfg // 10:
+        raise RuntimeError('generator self-check: only %d floats with 15-17 significant digits in %d configurations'
+                           % (dist['floats_with_15_to_17_significant_digits'], ncfg))
 
     # ---- regression probes of the two repaired defects (25a2190, edaa6d4) ------------------------------------------
     r1 = attempt(lambda: dict(P.update_params({'fingerprinting': {'level': 4}}, params=path)['fingerprinting'])['level'])
@@ -602,18 +640,33 @@ def run(ctx):
     unm, _ = core.coq_eval_bools([(i, 'is_unmodelled (classify %s)' % S(x)) for i, x in enumerate(sorted(lit_strings))], IMPORTS,
                                  os.path.join(ctx.workdir, 'unmodelled'))
     dist['literal_unmodelled'] = sum(1 for v in unm.values() if v)
+    by_class = {}
+    for i, x in enumerate(sorted(lit_strings)):
+        if unm.get(i):
+            c = unmodelled_class(x)
+            e = by_class.setdefault(c, {'strings': 0, 'of_which_python_literals': 0, 'example': x[:40]})
+            e['strings'] += 1
+            e['of_which_python_literals'] += is_literal(x)
+    dist['literal_unmodelled_by_class'] = by_class
     ctx.coverage['rule'] = ('cfg: seeded option dictionaries over the 3 sections (0-6 options each; known option names, new names; 20% carry one value of the '
                             '"tricky strings" list, 10% upper-case keys), every stage (file text, read_params with/without defaults, params_to_sections_dict, '
                             'params_to_dicts, 5x5 typed getter queries) compared with the model inside Coq; prop: the round-trip and fallback statements decided '
                             'on the implementation for every option; lit: every generated value string plus a grammar fuzz and all short strings over '
                             '"01._e-+jx aT" against ast.literal_eval; ini: hand-written INI texts; e2e: 3 molecules x option sets; dflt: every '
-                            '(entry point, option) pair. Non-trivial = a non-empty configuration / a text with at least one section; distinct by full input.')
+                            '(entry point, option) pair. Non-trivial = a non-empty configuration / a text with at least one section; distinct by full input. '
+                            'EXCLUDED FROM THE MODEL COMPARISON: strings the three-valued classifier answers CUnmodelled for (quoted strings, bracketed containers, '
+                            'number-like and sign-led non-tokens: @UNM@ of @LIT@ literal-stream strings on this run, counted per class in input_distribution.literal_unmodelled_by_class); '
+                            'for those only the implementation-side outcome test of the prop stream applies (read back == ast.literal_eval(written) or unkeyed violation).')
+    ctx.coverage['rule'] = ctx.coverage['rule'].replace('@UNM@', str(dist['literal_unmodelled'])).replace('@LIT@', str(dist['literal_strings']))
     ctx.coverage['input_distribution'] = dist
     ctx.assumptions += [
-        'configparser.ConfigParser (default construction), ast.literal_eval, str()/repr() of int/float/bool/None and float(repr(x)) == x are modelled, not verified; exercised by the correspondence',
+        'configparser.ConfigParser (default construction), ast.literal_eval and str()/repr() of int/float/bool/None are modelled, not verified; exercised by the correspondence',
+        'TRUSTED, not proved: float(repr(x)) == x (CPython shortest-repr round trip). The theorems typed_rt_float / print_parse_float_token show that the repr TOKEN '
+        'passes through the file unchanged and is classified as a float literal; that the token denotes x again is checked only on the implementation '
+        '(prop stream: bit-exact comparison of every float read back, %d of them with 15-17 significant digits on this run)' % dist['floats_with_15_to_17_significant_digits'],
         'strings are restricted to the modelled alphabet (printable ASCII, TAB, LF); a few non-ASCII values are checked on the implementation alone (UTF-8 locale)',
         'multi-line string values are outside the scalar domain of the round-trip property; they are compared model-vs-implementation only',
-        'the classifier is three-valued: strings it answers CUnmodelled for (%d here) are not compared' % dist['literal_unmodelled'],
+        'the classifier is three-valued: strings it answers CUnmodelled for (%d of %d here; per-class counts in the evidence) are not compared with the model' % (dist['literal_unmodelled'], dist['literal_strings']),
         'interpolation references %(name)s to options that exist are not modelled and not generated',
         'ints with more than sys.get_int_max_str_digits() digits cannot be printed by CPython (ValueError): modelled, boundary checked on the implementation',
         'argparse defaults are read off the parser objects built inside main() (parse_args intercepted); a string default goes through the action type as argparse does',
@@ -622,60 +675,134 @@ def run(ctx):
         core.report_broken_proof(ctx, res, found_input)
 
 
+def unmodelled_class(x):
+    """Why the three-valued classifier gives no verdict (CUnmodelled) for x -- counted in the evidence."""
+    if not G.modelled(x) or '\n' in x:
+        return 'character outside printable ASCII/TAB'
+    c = x[:1]
+    if c in '\'"':
+        return 'quoted string literal'
+    if c in '([{':
+        return 'bracketed: tuple / list / dict / set / parenthesised expression'
+    if c.isdigit() or c == '.':
+        return 'starts like a number but is not one number token (1+2j, 1,2, 1 #c, 1a, ...x)'
+    if c in '+-':
+        return 'sign followed by neither a number nor a name'
+    if c.isalpha() or c == '_':
+        return 'True/False/None followed by , or #; string prefix + quote; set()'
+    return 'other'
+
+
 # --------------------------------------------------------------------------- property on the implementation
-def _class_of_loss(k, v):
-    """The known, format-inherent class an (option name, value) pair belongs to, or None."""
-    if type(v) is str and '%' in v:
-        return FK_PERCENT
-    if k != k.lower():
-        return FK_KEY_CASE
+# A known-finding key is used only for an input of the class AND exactly the outcome recorded for that class;
+# the same input with any other outcome is an unkeyed violation.
+PCT_REF = re.compile(r'%\(([^)]+)\)s')
+
+
+def pct_expected(v, other_names=()):
+    """What configparser's BasicInterpolation is known to do with a string containing '%':
+    'set-error' (a lone %: ValueError in update_params), 'read-error' (%(name)s with no such option:
+    InterpolationMissingOptionError on read), ('value', s) (only %%: read back with % for %%), None (not covered)."""
+    if '%' in PCT_REF.sub('', v.replace('%%', '')):
+        return 'set-error'
+    refs = PCT_REF.findall(v.replace('%%', ''))
+    if refs:
+        return 'read-error' if all(r.lower() not in other_names for r in refs) else None
+    return ('value', v.strip().replace('%%', '%'))
+
+
+def pct_observed(P, workdir, s, k, v):
+    """The option alone in a file: 'set-error' / 'read-error' / ('value', got) / ('other', description)."""
+    import configparser
+    try:
+        cp = P.update_params({k: v}, section_name=s)
+    except ValueError as e:
+        return 'set-error' if 'invalid interpolation syntax' in str(e) else ('other', 'ValueError: %s' % e)
+    except Exception as e:  # noqa
+        return ('other', '%s: %s' % (type(e).__name__, e))
+    fn = os.path.join(workdir, 'single.cfg')
+    P.write_params(cp, fn)
+    try:
+        return ('value', P.params_to_sections_dict(fn)[s][k.lower()])
+    except configparser.InterpolationMissingOptionError:
+        return 'read-error'
+    except Exception as e:  # noqa
+        return ('other', '%s: %s' % (type(e).__name__, e))
+
+
+def _explain_failure(ctx, P, conf, stage, r, known, conf_json, text):
+    """The whole configuration could not be written (stage 'set') or read (stage 'read').  Known only if the
+    exception is the one of the class and an option holding a '%' value shows exactly that failure on its own;
+    returns the configuration without those options (to be compared normally), or None."""
+    want_exc = 'ValueError: invalid interpolation syntax' if stage == 'set' else 'InterpolationMissingOptionError'
+    kind = 'set-error' if stage == 'set' else 'read-error'
+    culprits = []
+    for s, kv in conf:
+        names = set(k.lower() for k, _ in kv)
+        for k, v in kv:
+            if type(v) is str and '%' in v:
+                exp, obs = pct_expected(v, names - {k.lower()}), pct_observed(P, ctx.workdir, s, k, v)
+                if exp == kind and obs == kind:
+                    culprits.append((s, k, v))
+    pl = {'config': conf_json, 'stage': stage, 'error': r[2], 'file_text': text}
+    if not r[2].startswith(want_exc) or not culprits:
+        ctx.fail('a supported option set cannot be %s: %s' % ('written' if stage == 'set' else 'read back', r[2]), pl)
+        return None
+    for s, k, v in culprits:
+        known(FK_PERCENT, 'option %s.%s = %r: %s' % (s, k, v, r[2][:150]), dict(pl, section=s, option=k, value=v))
+    gone = set((s, k) for s, k, _ in culprits)
+    return [(s, [(k, v) for k, v in kv if (s, k) not in gone]) for s, kv in conf]
+
+
+def value_outcome(v, got):
+    """[] = read back exactly; [key] = v is of a known class and `got` is exactly that class's known outcome;
+    None = anything else (an unkeyed violation)."""
+    if same_value(got, v):
+        return []
     if type(v) is float and not math.isfinite(v):
-        return FK_NONFINITE
+        return [FK_NONFINITE] if type(got) is str and got == repr(v) and got in ('inf', '-inf', 'nan') else None
     if type(v) is str:
-        if v != v.strip():
-            return FK_WHITESPACE
+        if '%' in v:
+            exp = pct_expected(v)
+            return [FK_PERCENT] if isinstance(exp, tuple) and exp[1] != v and same_value(got, exp[1]) else None
         if is_literal(v):
-            return FK_STR_LITERAL
+            return [FK_STR_LITERAL] if same_value(got, ast.literal_eval(v)) else None
+        if v != v.strip():
+            return [FK_WHITESPACE] if same_value(got, v.strip()) else None
     return None
 
 
-def _prop_failed_set(ctx, conf, r_text, known, conf_json):
-    pct = [(s, k, v) for s, kv in conf for k, v in kv if type(v) is str and '%' in v]
-    if pct:
-        known(FK_PERCENT, 'a string value containing %% cannot be stored: %s' % (r_text[2],), {'config': conf_json, 'value': pct[0][2]})
-    else:
-        ctx.fail('a supported option set cannot be written: %s' % (r_text[2],), {'config': conf_json})
-
-
 def _prop_roundtrip(ctx, conf, r_sd, known, conf_json, text, dist):
-    if r_sd[0] != 'ok':
-        pct = [(s, k, v) for s, kv in conf for k, v in kv if type(v) is str and '%' in v]
-        if pct:
-            known(FK_PERCENT, 'a string value containing %% makes the file unreadable: %s' % (r_sd[2],), {'config': conf_json, 'value': pct[0][2]})
-        else:
-            ctx.fail('a supported option set cannot be read back: %s' % (r_sd[2],), {'config': conf_json, 'file_text': text})
-        return
     sd = dict((s, dict(kv)) for s, kv in r_sd[1])
     for s, kv in conf:
-        lowered = {}
+        got_d = sd.get(s, {})
+        last = {}
         for k, v in kv:
-            lowered.setdefault(k.lower(), []).append(k)
+            last[k.lower()] = (k, v)                 # configparser keeps one option per lower-cased name: the last set
+        if sorted(got_d) != sorted(last):
+            ctx.fail('section %s read back with the options %s, written %s' % (s, sorted(got_d), sorted(last)),
+                     {'section': s, 'config': conf_json, 'file_text': text})
+            continue
         for k, v in kv:
             dist['prop_checks'] += 1
             if type(v) is str and '\n' in v:
                 continue
-            got_d = sd.get(s, {})
-            if k in got_d and same_value(got_d[k], v) and len(lowered[k.lower()]) == 1:
+            lk = k.lower()
+            wk, wv = last[lk]
+            got = got_d[lk]
+            pl = {'section': s, 'option': k, 'value': repr(v), 'read_back_under': lk, 'read_back': repr(got), 'config': conf_json, 'file_text': text}
+            what = 'option %s.%s = %r read back as %s = %r' % (s, k, v, lk, got)
+            if wk != k:
+                # overwritten by a later option whose name differs in case only; the winner's value is checked at the winner
+                known(FK_KEY_CASE, what + ' (overwritten by %r)' % wk, pl)
                 continue
-            if len(lowered[k.lower()]) > 1:
-                fk = FK_KEY_CASE
-            else:
-                fk = _class_of_loss(k, v)
-            pl = {'section': s, 'option': k, 'value': repr(v), 'read_back': repr(got_d.get(k, got_d.get(k.lower(), '<absent>'))), 'config': conf_json, 'file_text': text}
-            what = 'option %s.%s = %r read back as %s' % (s, k, v, pl['read_back'])
-            if fk is None:
+            keys = value_outcome(v, got) if not (type(v) is str and '\n' in v) else []
+            if keys is None:
                 ctx.fail(what, pl)
-            else:
+                continue
+            if k != lk:
+                keys = [FK_KEY_CASE] + keys          # the value under the lower-cased key is (up to its own class) the one written
+            for fk in keys:
                 known(fk, what, pl)
 
 
@@ -684,12 +811,12 @@ def _direct_nonascii(ctx, P, v, known):
     r = attempt(lambda: (P.write_params(P.update_params({'out_dir': v}, section_name='conformer_generation'), fn),
                          P.params_to_sections_dict(fn)['conformer_generation']['out_dir'])[1])
     ctx.count(('nonascii', v), True)
-    if r[0] != 'ok' or not same_value(r[1], v):
-        fk = FK_STR_LITERAL if is_literal(v) else None
-        if fk:
-            known(fk, 'non-ASCII string value %r read back as %r' % (v, r[1:]), {'value': v, 'got': repr(r[1:])})
-        else:
-            ctx.fail('non-ASCII string value %r read back as %r' % (v, r[1:]), {'value': v, 'got': repr(r[1:])})
+    keys = value_outcome(v, r[1]) if r[0] == 'ok' else None
+    pl = {'value': v, 'got': repr(r[1:])}
+    if keys is None:
+        ctx.fail('non-ASCII string value %r read back as %r' % (v, r[1:]), pl)
+    for fk in keys or []:
+        known(fk, 'non-ASCII string value %r read back as %r' % (v, r[1]), pl)
 
 
 # --------------------------------------------------------------------------- hand-written INI texts
@@ -746,7 +873,7 @@ def _end_to_end(ctx, P, pipeline, dist, dmap):
         mol = mol_from_sdf(f)
         for j in range(ctx.n(3, 12)):
             opts = {}
-            pool = {'bits': [1024, 4096, 2 ** 32, 32], 'level': [0, 1, 2, 5, -1], 'first': [1, 2, -1], 'radius_multiplier': [1.718, 1.5, 2.0, 0.9],
+            pool = {'bits': [1024, 4096, 2 ** 32, 32], 'level': [0, 1, 2, 5, -1], 'first': [1, 2, -1], 'radius_multiplier': [1.718, 1.5, 2.0, 0.9, 1.7182818284590453, 1.718000000000001, 1.0 / 0.6],
                     'stereo': [True, False], 'counts': [True, False], 'include_disconnected': [True, False], 'rdkit_invariants': [True, False],
                     'remove_duplicate_substructs': [True, False], 'exclude_floating': [True, False]}
             for k in rng.sample(sorted(pool), rng.randint(1, 6)):
@@ -774,8 +901,175 @@ def _end_to_end(ctx, P, pipeline, dist, dmap):
                          {'molecule': os.path.basename(f), 'options': repr(opts), 'via_file': repr(via_fill)[:600], 'direct': repr(direct_full)[:600]})
 
 
+def _conf_from_json(cj):
+    env = {'inf': float('inf'), 'nan': float('nan')}
+    return [(s, [(k, eval(r, {'__builtins__': {}}, env)) for k, r in kv]) for s, kv in cj]
+
+
+def _replay_eval(ctx, label, expr, model_out):
+    res, _ = core.coq_eval_bools([(0, expr)], IMPORTS, os.path.join(ctx.workdir, 'rp_%d' % len(os.listdir(ctx.workdir))))
+    ok = res.get(0) is True
+    print('  [%s] model vs implementation: %s' % (label, 'agree' if ok else 'DISAGREE' if res.get(0) is False else 'MODEL EVALUATION FAILED'))
+    if not ok and model_out:
+        print('     model: ' + core.coq_eval_raw(model_out, IMPORTS, os.path.join(ctx.workdir, 'rp_raw'))[-1500:].replace('\n', '\n     '))
+    return ok
+
+
+def _replay_config(ctx, P, pipeline, conf, forms, fills):
+    bad = 0
+    conf_json = [[s, [[k, repr(v)] for k, v in kv]] for s, kv in conf]
+    conf_lit = core.listlit(['(%s, %s)' % (S(s), dict_lit(kv, value_lit)) for s, kv in conf])
+    print('configuration: %s' % conf_json)
+    known_hits, viol0 = [], len(ctx.violations)
+
+    def known(fk, what, payload):
+        known_hits.append((fk, what))
+    for form in forms:
+        fn = os.path.join(ctx.workdir, 'replay_%s.cfg' % form)
+
+        def build():
+            if form == 'single_section':
+                params = None
+                for s, kv in conf:
+                    params = P.update_params(dict(kv), params=params, section_name=s)
+            else:
+                params = P.update_params(dict((s, dict(kv)) for s, kv in conf))
+            P.write_params(params, fn)
+            return open(fn).read()
+        r_text = attempt(build)
+        print(' update_params form %s -> %s' % (form, 'file written:\n' + r_text[1] if r_text[0] == 'ok' else 'raises ' + r_text[2]))
+        mupd = 'update_all []' if form == 'single_section' else 'update_params_sections []'
+        m = 'rbind (%s %s) (fun c => Ok (render c))' % (mupd, conf_lit)
+        bad += not _replay_eval(ctx, 'write/' + form, 'result_match String.eqb (%s) %s' % (m, res_lit(r_text, S)), m)
+        if r_text[0] != 'ok':
+            red = _explain_failure(ctx, P, conf, 'set', r_text, known, conf_json, None)
+            if red is not None:
+                print(' -> explained by the known %-class; replaying the configuration without that option')
+                bad += _replay_config(ctx, P, pipeline, red, [form], fills)
+            continue
+        text, tl = r_text[1], S(r_text[1])
+        for fill in fills:
+            def rd():
+                cp = P.read_params(fn, fill_defaults=fill)
+                return [(s, [(k, cp.get(s, k, raw=True)) for k in cp.options(s)]) for s in cp.sections()]
+            r = attempt(rd)
+            print(' read_params(fill_defaults=%s) -> %s' % (fill, r[1:]))
+            m = 'read_params defaults_cfg_text %s (Some %s)' % (core.blit(fill), tl)
+            bad += not _replay_eval(ctx, 'read fill=%s' % fill, 'result_match cfg_eqb (%s) %s' % (m, res_lit(r, cfg_lit)), m)
+        r_sd = attempt(lambda: [(s, list(d.items())) for s, d in P.params_to_sections_dict(fn).items()])
+        print(' params_to_sections_dict -> %s' % (r_sd[1:],))
+        m = 'params_to_sections_dict defaults_cfg_text %s' % tl
+        bad += not _replay_eval(ctx, 'sections_dict', 'result_match sdict_matches (%s) %s' % (
+            m, res_lit(r_sd, lambda sd: core.listlit(['(%s, %s)' % (S(s), dict_lit(kv, obs_lit)) for s, kv in sd]))), m)
+        r_pd = attempt(lambda: tuple(list(d.items()) for d in pipeline.params_to_dicts(fn)))
+        print(' params_to_dicts -> %s' % (r_pd[1:],))
+        m = 'params_to_dicts defaults_cfg_text %s' % tl
+        bad += not _replay_eval(ctx, 'params_to_dicts', 'result_match (pair_match dict_matches dict_matches) (%s) %s' % (
+            m, res_lit(r_pd, lambda pd: '(%s, %s)' % (dict_lit(pd[0], obs_lit), dict_lit(pd[1], obs_lit)))), m)
+        if r_sd[0] != 'ok':
+            red = _explain_failure(ctx, P, conf, 'read', r_sd, known, conf_json, text)
+            if red is not None:
+                print(' -> explained by the known %-class; replaying the configuration without that option')
+                bad += _replay_config(ctx, P, pipeline, red, [form], fills)
+        else:
+            _prop_roundtrip(ctx, conf, r_sd, known, conf_json, text, {'prop_checks': 0})
+    for fk, what in known_hits:
+        print('  known class %s: %s' % (fk, what[:200]))
+    for v in ctx.violations[viol0:]:
+        print('  PROPERTY VIOLATED (no known class): %s' % v['what'][:300])
+    del ctx.violations[viol0:]
+    return bad
+
+
 def replay(ctx, path):
+    """Re-run the input recorded in a replay file on the implementation and on the model.
+    Exit status 1 when the failure reproduces (model/implementation disagreement or an unkeyed property violation)."""
     import json
+    import shutil
     d = json.load(open(path))
-    print(json.dumps(d, indent=1)[:6000])
-    return 0
+    case = d.get('case', {}) or {}
+    print('replay of %s (%s, seed %s): %s' % (path, d.get('kind'), d.get('seed'), (d.get('what') or '')[:300]))
+    try:
+        core.coq_make(['theories/Properties/C20.vo'])
+    except core.CoqBuildError as e:
+        print('the Coq development does not build (a proof obligation is broken):\n' + e.log[-1500:])
+        shutil.rmtree(ctx.workdir, ignore_errors=True)
+        return 1
+    from e3fp.config import params as P
+    from e3fp import pipeline
+    bad = 0
+    nviol = [0]
+    try:
+        if 'config' in case:
+            conf = _conf_from_json(case['config'])
+            forms = [case['update_params_form']] if case.get('update_params_form') else ['single_section', 'sections_dict']
+            fills = [case['fill_defaults']] if 'fill_defaults' in case else [False, True]
+            orig_fail = ctx.fail
+
+            def counting_fail(what, payload, finding_key=None, **kw):
+                if finding_key is None:
+                    nviol[0] += 1
+                return orig_fail(what, payload, finding_key=finding_key, **kw)
+            ctx.fail = counting_fail
+            bad += _replay_config(ctx, P, pipeline, conf, forms, fills)
+            ctx.fail = orig_fail
+            bad += nviol[0]
+        elif 'string' in case:
+            s = case['string']
+            try:
+                o = obs_lit(ast.literal_eval(s))
+            except NOT_LITERAL:
+                o = obs_lit(s)
+            print('string %r: ast.literal_eval / get_value(auto) observation %s; py_plain_word %s' % (s, o, py_plain_word(s)))
+            bad += not _replay_eval(ctx, 'literal', 'cls_matches (classify %s) %s && Bool.eqb (plain_word %s) %s' % (S(s), o, S(s), core.blit(py_plain_word(s))),
+                                    '(classify %s, plain_word %s)' % (S(s), S(s)))
+        elif 'text' in case:
+            fn = os.path.join(ctx.workdir, 'replay.cfg')
+            open(fn, 'w').write(case['text'])
+
+            def rd():
+                cp = P.read_params(fn)
+                return [(s, [(k, cp.get(s, k, raw=True)) for k in cp.options(s)]) for s in cp.sections()]
+            r = attempt(rd)
+            print('text:\n%s\nConfigParser -> %s' % (case['text'], r[1:]))
+            bad += not _replay_eval(ctx, 'ini', 'result_match cfg_eqb (parse_file %s) %s' % (S(case['text']), res_lit(r, cfg_lit)), 'parse_file %s' % S(case['text']))
+        elif 'token' in case:
+            tok = case['token']
+            fl = G.ftok_literal(tok)
+            print('float token %r -> %s' % (tok, fl))
+            bad += fl is None or not _replay_eval(ctx, 'float token', 'ftok_ok %s && String.eqb (render_ftok %s) %s && fval_close (float_value %s) %s'
+                                                  % (fl, fl, S(tok), S(tok), fval_lit(float(tok))), '(render_ftok %s, float_value %s)' % (fl, S(tok)))
+        elif 'entry_point' in case:
+            eps = dict((n, d_) for n, _, _, d_ in G.entry_point_defaults())
+            _, _, parsed = G.defaults_file()
+            raw = dict(parsed)[case['section']]
+            raw = dict(raw)[case['option']]
+            have = eps[case['entry_point']].get(case['option'])
+            want = ast.literal_eval(raw) if is_literal(raw) else raw
+            if case['section'] == 'fingerprinting' and case['option'] == 'bits':
+                from e3fp.fingerprint import fprinter
+                want = fprinter.BITS
+            same = same_value(have, want)
+            print('%s: default of %s in the code = %r; defaults.cfg [%s] %s = %s (typed %r) -> %s'
+                  % (case['entry_point'], case['option'], have, case['section'], case['option'], raw, want, 'coherent' if same else 'NOT coherent'))
+            bad += not same
+        elif 'molecule' in case:
+            import glob
+            from e3fp.conformer.util import mol_from_sdf
+            f = os.path.join(core.REPO, 'tests', 'data', case['molecule'])
+            opts = eval(case['options'], {'__builtins__': {}}, {})
+            mol = mol_from_sdf(f)
+            fn = os.path.join(ctx.workdir, 'replay_e2e.cfg')
+            P.write_params(P.update_params(opts, section_name='fingerprinting'), fn)
+            a = attempt(lambda: _fp_obs(pipeline.fprints_from_mol(mol, fprint_params=pipeline.params_to_dicts(fn)[1])))
+            b = attempt(lambda: _fp_obs(pipeline.fprints_from_mol(mol, fprint_params=dict(opts))))
+            print('molecule %s options %r\n via file: %s\n direct  : %s\n -> %s' % (case['molecule'], opts, repr(a)[:400], repr(b)[:400], 'equal' if a == b else 'DIFFERENT'))
+            bad += a != b
+        else:
+            print(json.dumps(d, indent=1)[:6000])
+            print('(no re-runnable input in this replay file: %s)' % ('broken proof obligation' if d.get('kind') == 'proof-obligation' else d.get('kind')))
+            bad += 1 if d.get('kind') == 'proof-obligation' else 0
+    finally:
+        shutil.rmtree(ctx.workdir, ignore_errors=True)
+    print('replay: %s' % ('the failure REPRODUCES' if bad else 'does not reproduce on this tree'))
+    return 1 if bad else 0
